@@ -571,7 +571,9 @@ def write_evidence_file(prop, tier, seed, specs, results, violations, known_hits
         if r:
             rec.update({"verdict": r["class"], "cbmc_checks": r["checks"], "cbmc_checks_failed": r["failed"], "cover_witnesses": f"{r['covers_sat']}/{r['covers']}",
                         "solver_s": r["solver_s"], "wall_s": r["wall_s"], "peak_rss_mb": r["peak_rss_mb"]})
-            w = [{"witness": t["desc"], "inputs": [int.from_bytes(bytes(v), "little") for v in t["values"]], "native": t.get("native")} for t in r.get("playback", []) if t["kind"] == "cover"]
+            ren = {"not-reproduced": "harness ran natively on these inputs without any failure", "reproduced": "FAILED natively", "misfit": "inputs do not fit the harness natively"}
+            w = [{"witness": t["desc"], "inputs": [int.from_bytes(bytes(v), "little") for v in t["values"]],
+                  "native_replay": {k: ren.get(v, v) for k, v in (t.get("native") or {}).items()}} for t in r.get("playback", []) if t["kind"] == "cover"]
             if w:
                 rec["witness_inputs"] = w
             obligations += 1
